@@ -265,7 +265,10 @@ def read_enum(
     reader_schema=None,
     options={},
 ):
-    symbol = writer_schema["symbols"][decoder.read_enum()]
+    index = decoder.read_enum()
+    if index < 0 or index >= len(writer_schema["symbols"]):
+        raise ValueError(f"enum index {index} out of range for {writer_schema['name']}")
+    symbol = writer_schema["symbols"][index]
     if reader_schema and symbol not in reader_schema["symbols"]:
         default = reader_schema.get("default")
         if default:
@@ -278,7 +281,9 @@ def read_enum(
 
 
 def skip_enum(decoder, writer_schema, named_schemas):
-    decoder.read_enum()
+    index = decoder.read_enum()
+    if index < 0 or index >= len(writer_schema["symbols"]):
+        raise ValueError(f"enum index {index} out of range for {writer_schema['name']}")
 
 
 def read_array(
@@ -399,6 +404,8 @@ def read_union(
 ):
     # schema resolution
     index = decoder.read_index()
+    if index < 0 or index >= len(writer_schema):
+        raise ValueError(f"union index {index} out of range for {writer_schema}")
     idx_schema = writer_schema[index]
     idx_reader_schema = None
 
@@ -474,6 +481,8 @@ def read_union(
 def skip_union(decoder, writer_schema, named_schemas):
     # schema resolution
     index = decoder.read_index()
+    if index < 0 or index >= len(writer_schema):
+        raise ValueError(f"union index {index} out of range for {writer_schema}")
     skip_data(decoder, writer_schema[index], named_schemas)
 
 
